@@ -332,9 +332,14 @@ def replay_model(ctx, ok, what):
         if not ctx.violations:
             ctx.violation({'kind': 'broken-obligation', 'broken': ctx.build_msg}, no_input=True)
         return
-    mism = ctx.run_cases('Model.Base Model.PyRec Model.Respond Model.Register Model.Node Model.ValSet Corr.Node', 'list nlabel', 'node_run',
-                         [(c, o) for c, o, _ in coq_cases], shard=max(5, len(coq_cases) // (2 * common.NPROC) + 1), mismatch_fn='mismatches_u',
-                         tag=ctx.prop.lower() + '_node')
+    try:
+        mism = ctx.run_cases('Model.Base Model.PyRec Model.Respond Model.Register Model.Node Model.ValSet Corr.Node', 'list nlabel', 'node_run',
+                             [(c, o) for c, o, _ in coq_cases], shard=max(5, len(coq_cases) // (2 * common.NPROC) + 1), mismatch_fn='mismatches_u',
+                             tag=ctx.prop.lower() + '_node')
+    except RuntimeError as e:
+        # the implementation produced a label sequence the model cannot even read (e.g. a handler died half-way)
+        ctx.violation({'kind': 'correspondence', 'what': what + ': the logged label sequence could not be replayed', 'error': str(e)[-1500:]}, no_input=True)
+        return
     ctx.cov['traces_validated_against_impl'] = len(coq_cases) - len(mism)
     for idx, model_out in mism[:3]:
         from lib import valparse
